@@ -624,12 +624,12 @@ def _loop_combinator(ctx):
     ctx.require(all(d.kind == "assign" and d.index is None for d in defs) and len(defs) == 2,
                 f"C06.R4: LoopCombinator._product: `{targ.id}` has {len(defs)} reaching definitions at the yield (expected one per branch)")
     # the membership test on iteration_map
-    tests = [t for t in g.nodes.values() if t.kind == "test" and isinstance(t.ast, ast.Compare) and len(t.ast.ops) == 1
-             and isinstance(t.ast.ops[0], (ast.In, ast.NotIn)) and dotted(t.ast.comparators[0]) == "self.iteration_map"]
+    # (branch facts: the test may be spelled `K not in M` / `not K in M` / `not (K not in M)` with the branches in
+    # either order; what matters is the edge on which `K in self.iteration_map` is known to be false = first combination)
+    tests = [(t, m) for t in g.nodes.values() if t.kind == "test" and t.ast is not None for m in [_membership_decider(t.ast)] if m is not None]
     ctx.require(len(tests) == 1, f"C06.R4: LoopCombinator._product: membership test on self.iteration_map not found exactly once ({len(tests)})")
-    t = tests[0]
-    first_edge = "t" if isinstance(t.ast.ops[0], ast.NotIn) else "f"
-    later_edge = "f" if first_edge == "t" else "t"
+    t, (member, later_edge) = tests[0]
+    first_edge = "f" if later_edge == "t" else "t"
     # base tag: the name whose definition is get_tag(...)
     base = None
     for n in g.nodes.values():
@@ -638,7 +638,7 @@ def _loop_combinator(ctx):
             base = n.ast.targets[0].id
     ctx.require(base is not None, "C06.R4: LoopCombinator._product: the combination tag is not computed with get_tag before the test")
     B, P = f"<{base}>", f"init(<{base}>)"
-    tc = tag_canon(f, t.ast.left, t.id)
+    tc = tag_canon(f, member.left, t.id)
     ctx.ob("R4", "LoopCombinator._product: first/later iteration is decided on the tag prefix", tc == P, func=f, node=t.ast, instance="product:test",
            message=f"membership of `{tc}` in iteration_map is tested, expected `{P}`")
     for d in defs:
